@@ -9,6 +9,7 @@ import (
 
 	"verif/ssvcheck/internal/ens"
 	"verif/ssvcheck/internal/load"
+	"verif/ssvcheck/internal/rules"
 )
 
 func main() {
@@ -29,6 +30,7 @@ func dump(args []string) {
 	fn := fs.String("func", "", "function spec(s), comma separated")
 	exit := fs.String("exit", "err=nil", "exit spec")
 	blocks := fs.Bool("blocks", false, "dump per-block facts")
+	at := fs.String("at", "", "print facts before calls whose callee label matches this glob")
 	dir := fs.String("dir", "/repo", "repo dir")
 	fs.Parse(args)
 	t0 := time.Now()
@@ -50,6 +52,20 @@ func dump(args []string) {
 		a := e.Analyze(f)
 		if *blocks {
 			fmt.Print(a.Dump())
+		}
+		if *at != "" {
+			for _, cs := range rules.CallsIn(f, *at) {
+				fa := e.Analyze(cs.Fn)
+				fmt.Printf("-- call %s at %s in %s\n   node: %s\n", cs.Label, p.Pos(cs.Instr.Pos()), ens.SSAFuncName(cs.Fn), fa.D.Call(cs.Instr))
+				fsx := fa.FactsAt(cs.Instr)
+				for _, k := range fsx.Keys() {
+					if !*blocks && (strings.HasPrefix(k, "called(") || strings.HasPrefix(k, "forall(called(")) {
+						continue
+					}
+					fmt.Printf("   %s\n", k)
+				}
+			}
+			continue
 		}
 		facts, exits, err := a.Ens(*exit)
 		if err != nil {
